@@ -77,9 +77,16 @@ NOTE_B = ("Trusted: the ~200-line reference model written from the documentation
 def main():
     have_b = os.path.exists(os.path.join(ROOT, 'sim', 'hcases.py'))
     checks = []
+    model_props = ('C01', 'C04', 'C05', 'C08', 'C09', 'C10', 'C11', 'C12',
+                   'C13', 'C14')
     for pid, (eng, level, ref, tech, text) in CHECKS.items():
         if eng == B and not have_b:
             continue
+        if pid in model_props:
+            tech += " + refinement of the recorded history against an executable reference model (tie-free runs)"
+            text += " In addition, for every run in which nothing is left to scheduling choice, the full timed history is compared with the prediction of a small executable reference model (sim/refmodel.py); differences are reported under the property they belong to."
+        if pid in ('C01', 'C02', 'C03', 'C12'):
+            text += " One seed in four is an API history (constructor/requires/add/remove/bypass/keep_only/sanitize calls interleaved with read-only queries) followed by run(), one in ten a hand-designed motif (join under a full window, fan-out with mixed eligibility)."
         checks.append({
             "property_id": pid,
             "quick_cmd": "./check {} --tier quick".format(pid),
